@@ -1,7 +1,9 @@
 import MgpuModel.Util
 import MgpuModel.C20_Sys
 import MgpuModel.C20_Parse
-/-! # C20 — line-protocol front end (`c20 run …`, `c20 parse …`, `c20 inst …`) -/
+import MgpuModel.C20_Header
+import MgpuModel.C20_Engine
+/-! # C20 — line-protocol front end (`c20 run …`, `c20 eng …`, `c20 parse …`, `c20 inst …`, `c20 hdr …`, `c20 klist …`, `c20 bench …`) -/
 namespace C20
 open Util
 
@@ -108,10 +110,113 @@ def canonTBs (ts : List TBT) : String :=
     s!"T{showI t.id.1},{showI t.id.2.1},{showI t.id.2.2}" ++
     String.join (t.warps.map fun w => s!" W{showI w.id},{showI w.count}" ++ String.join (w.insts.map fun i => " " ++ canonInst i)) ++ " ;")
 
+/-! ## header / kernelslist / benchmark case lines (`harness/c20_header.go`)
+
+File lines are joined with `|`, sections end with `~`; inside a line `\\ \p \w \t \x<hex>;` stand for
+backslash, `|`, `~`, tab and any other character outside printable ASCII. -/
+structure UnescSt where
+  out : List Char := []   -- reversed
+  mode : Nat := 0         -- 0 plain, 1 after a backslash, 2 inside `\x…;`
+  hex : Nat := 0
+
+def unescStep (s : UnescSt) (c : Char) : UnescSt :=
+  match s.mode with
+  | 0 => if c = '\\' then { s with mode := 1 } else { s with out := c :: s.out }
+  | 1 =>
+    if c = 'x' then { s with mode := 2, hex := 0 }
+    else
+      let d := if c = 'p' then '|' else if c = 'w' then '~' else if c = 't' then '\t' else c
+      { s with mode := 0, out := d :: s.out }
+  | _ =>
+    if c = ';' then { s with mode := 0, out := Char.ofNat s.hex :: s.out }
+    else { s with hex := s.hex * 16 + digitVal c }
+
+def unesc (l : List Char) : List Char := (l.foldl unescStep {}).out.reverse
+
+def escChar (c : Char) : List Char :=
+  if c = '\\' then ['\\', '\\'] else if c = '|' then ['\\', 'p'] else if c = '~' then ['\\', 'w']
+  else if c = '\t' then ['\\', 't']
+  else if c.toNat < 32 || 127 ≤ c.toNat then '\\' :: 'x' :: (showNat 16 c.toNat ++ [';'])
+  else [c]
+
+def esc (l : List Char) : String := String.ofList (l.flatMap escChar)
+
+/-- the lines of one `~`-terminated section -/
+def sectionLines (sec : List Char) : List (List Char) := (splitOnC '|' sec).map unesc
+
+def canonDim (d : Int × Int × Int) : String := s!"{showI d.1},{showI d.2.1},{showI d.2.2}"
+
+def canonHeader (h : KernelFileHeader) : String :=
+  s!"name=[{esc h.kernelName}] id={showI h.kernelID} grid={canonDim h.gridDim} block={canonDim h.blockDim} " ++
+  s!"shmem={showI h.shmem} nregs={showI h.nregs} bin={showI h.binaryVersion} stream={showI h.cudaStreamID} " ++
+  s!"shbase={showI h.shmemBaseAddr} locbase={showI h.localMemBaseAddr} nvbit=[{esc h.nvbitVersion}] " ++
+  s!"accel=[{esc h.accelsimTracerVersion}] li={if h.enableLineinfo then 1 else 0}"
+
+def canonKernel (k : Kernel) : String :=
+  "[" ++ String.join (k.map fun b => "(" ++ nats b ++ ")") ++ "]"
+
+def canonExec : Exec → String
+  | .kernel f => s!"K[{esc f}]"
+  | .memcpy d a n => s!"M[{esc d}],{a},{n}"
+
+def canonBenchExec : BenchExec → String
+  | .kernel k => "K" ++ canonKernel k
+  | .memcpy d a n => s!"M[{esc d}],{a},{n}"
+
+def orNone (l : List String) : String := if l.isEmpty then "none" else joinWith " " l
+
+/-- `name ~ lines ~ name ~ lines ~ …` as a lookup (first entry wins; no entry = no lines) -/
+def filesOf : List (List Char) → List Char → List (List Char)
+  | n :: ls :: r, f => if unesc n = f then sectionLines ls else filesOf r f
+  | _, _ => []
+
+def handleHeader (line : String) : Option String :=
+  if line.startsWith "c20 hdr " then
+    let secs := splitOnC '~' (line.toList.drop 8)
+    some (match parseFile (sectionLines (secs.headD [])) with
+      | .ok (h, ts) => s!"T[{canonTBs ts}] H " ++ canonHeader h
+      | .error f => canonFault f)
+  else if line.startsWith "c20 klist " then
+    let secs := splitOnC '~' (line.toList.drop 10)
+    some (match readKernelsList (sectionLines (secs.headD [])) with
+      | .ok es => orNone (es.map canonExec)
+      | .error f => canonFault f)
+  else if line.startsWith "c20 bench " then
+    let secs := (splitOnC '~' (line.toList.drop 10)).dropLast
+    some (match buildBench (filesOf (secs.drop 1)) (sectionLines (secs.headD [])) with
+      | .ok bs => orNone (bs.map canonBenchExec) ++ " run=" ++ String.join ((driverKernels bs).map canonKernel)
+      | .error f => canonFault f)
+  else none
+
 def legacyAddrOf (line : String) : Bool := line.startsWith "c20 legacy"
 
+/-- `G0+S1+y0` = handled event `+` the events scheduled while it was handled -/
+def parseEStep (t : String) : Option EStep :=
+  match (t.splitOn "+").mapM parseEv with
+  | some (e :: new) => some (e, new)
+  | _ => none
+
+/-- `c20 eng <cfg> ; <initial queue> ; <steps>`: replay a recorded run of the real engine as a run of
+    the abstract engine (`EngRun`) and judge it -/
+def engCase (cfg : List String) (q0 : List String) (steps : List String) : String :=
+  match kvNat? cfg "g", kvNat? cfg "s", kvNat? cfg "c", kv? cfg "k" with
+  | some g, some sS, some c, some k =>
+    let trace := parseTrace k
+    let a := engReplay (init false g sS c trace) (q0.filterMap parseEv) (steps.filterMap parseEStep)
+    let bad := match a.bad with
+      | none => "-"
+      | some (i, r) => s!"{i}{r}"
+    s!"ev={a.n} valid={if a.bad.isNone then 1 else 0} firstbad={bad} spurious={a.spurious} missed={a.missed} " ++
+    s!"qend={a.q.length} bound={engBound g sS c trace} finished={if finished a.s then 1 else 0} fl={a.fl}"
+  | _, _, _, _ => "bad"
+
 def handle (line : String) : String :=
-  if line.startsWith "c20 run" then
+  if line.startsWith "c20 eng" then
+    match splitTrim line ";" with
+    | [cfg, q0] => engCase (words cfg) (words q0) []
+    | [cfg, q0, steps] => engCase (words cfg) (words q0) (words steps)
+    | _ => "bad"
+  else if line.startsWith "c20 run" then
     match splitTrim line ";" with
     | [cfg] => runCase (words cfg) []
     | [cfg, sched] => runCase (words cfg) (words sched)
@@ -125,6 +230,8 @@ def handle (line : String) : String :=
     match extractInst false true (line.drop 9).toString.toList with
     | .ok i => canonInst i
     | .error f => canonFault f
-  else "bad"
+  else match handleHeader line with
+    | some r => r
+    | none => "bad"
 
 end C20
